@@ -213,10 +213,6 @@ impl TxMap {
     pub fn get(&self, k: &Byte32) -> (r: Option<&(u32, Transaction)>)
         ensures r == (if self.m.contains_key(k@) { Some(&self.m[k@]) } else { None::<&(u32, Transaction)> }) { unimplemented!() }
 }
-// assumed std semantics of Option::or
-pub assume_specification<T>[ Option::<T>::or ](a: Option<T>, b: Option<T>) -> (r: Option<T>)
-    ensures r == (if a.is_some() { a } else { b });
-
 // --- RocksDB
 pub enum Op { Put(Seq<u8>, Seq<u8>), Del(Seq<u8>) }
 #[derive(Debug)]
